@@ -5,6 +5,7 @@ import (
 	"go/constant"
 	"go/token"
 	"go/types"
+	"sort"
 	"strings"
 
 	"golang.org/x/tools/go/ssa"
@@ -640,3 +641,228 @@ func specWalkDirection(g *ssa.Function) (string, string) {
 }
 
 var _ = load.Module
+
+// c08WaitSetComplete: S12 — when a supervisor starts its own termination it waits for every child
+// that is still running: in the loop that fills the wait set (and the list of children to be told
+// to stop) a child is left out only because its slot is empty or because it is the child that has
+// just terminated. Any other reason to skip one (it "was asked to stop already", it is disabled,
+// ...) lets the supervisor terminate — and its owner report 'stopped' — while that child runs.
+func c08WaitSetComplete(p *load.Program, r *core.Report, machines []*ssa.Function, rule, rid string, floor int) {
+	r.Floor(rule, floor)
+	for _, f := range machines {
+		fn := fname(f)
+		// does this function enter shutdown? (store true to .shutdown / 3 to .mode)
+		var enters []ssa.Instruction
+		eachInstr(f, func(in ssa.Instruction) {
+			st, ok := in.(*ssa.Store)
+			if !ok {
+				return
+			}
+			_, fl := fieldOwner(st.Addr)
+			if fl == "shutdown" {
+				if b, ok := constBool(st.Val); ok && b {
+					enters = append(enters, in)
+				}
+			}
+			if fl == "mode" {
+				if c, ok := constInt(st.Val); ok && c == 3 {
+					enters = append(enters, in)
+				}
+			}
+		})
+		if len(enters) == 0 {
+			continue
+		}
+		seq := 0
+		eachInstr(f, func(in ssa.Instruction) {
+			mu, ok := in.(*ssa.MapUpdate)
+			if !ok {
+				return
+			}
+			// the map is the wait set: the field itself, or a local that is stored into it
+			isWait := false
+			if _, path, okp := fieldPath(mu.Map); okp && len(path) > 0 && path[len(path)-1] == "wait" {
+				isWait = true
+			}
+			if refs := mu.Map.Referrers(); refs != nil && !isWait {
+				for _, rf := range *refs {
+					if st, ok := rf.(*ssa.Store); ok && st.Val == mu.Map {
+						if _, fl := fieldOwner(st.Addr); fl == "wait" {
+							isWait = true
+						}
+					}
+				}
+			}
+			if !isWait {
+				return
+			}
+			reachesEnter := false
+			for _, e := range enters {
+				if instrReachable(in, e) {
+					reachesEnter = true
+				}
+			}
+			hdr := loopHeaderOf(in)
+			if !reachesEnter || hdr == nil {
+				return
+			}
+			seq++
+			key := fmt.Sprintf("%s|%s|wait-set#%d", rid, fn, seq)
+			pos := p.Pos(in.Pos())
+			inst := "every running child is put into the wait set of the supervisor's own termination (skipped only when its slot is empty or it is the terminated child)"
+			// blocks of the loop
+			inLoop := map[*ssa.BasicBlock]bool{}
+			{
+				fwd := map[*ssa.BasicBlock]bool{}
+				var w func(b *ssa.BasicBlock)
+				w = func(b *ssa.BasicBlock) {
+					for _, s := range b.Succs {
+						if !fwd[s] {
+							fwd[s] = true
+							w(s)
+						}
+					}
+				}
+				w(hdr)
+				bwd := map[*ssa.BasicBlock]bool{}
+				var wb func(b *ssa.BasicBlock)
+				wb = func(b *ssa.BasicBlock) {
+					for _, s := range b.Preds {
+						if !bwd[s] {
+							bwd[s] = true
+							wb(s)
+						}
+					}
+				}
+				wb(hdr)
+				for b := range fwd {
+					if bwd[b] {
+						inLoop[b] = true
+					}
+				}
+				inLoop[hdr] = true
+			}
+			// can block b reach the header again without executing the update?
+			var skipsMemo = map[*ssa.BasicBlock]int{}
+			var canSkip func(b *ssa.BasicBlock, seen map[*ssa.BasicBlock]bool) bool
+			canSkip = func(b *ssa.BasicBlock, seen map[*ssa.BasicBlock]bool) bool {
+				if b == hdr {
+					return true
+				}
+				if !inLoop[b] || seen[b] || b == in.Block() {
+					return false
+				}
+				seen[b] = true
+				for _, s := range b.Succs {
+					if canSkip(s, seen) {
+						return true
+					}
+				}
+				return false
+			}
+			_ = skipsMemo
+			canUpdate := func(b *ssa.BasicBlock) bool {
+				return b == in.Block() || (len(b.Instrs) > 0 && instrReachableWithin(b, in.Block(), inLoop, hdr))
+			}
+			var bad []string
+			n := 0
+			for b := range inLoop {
+				if b == hdr || len(b.Instrs) == 0 {
+					continue
+				}
+				ifc, ok := b.Instrs[len(b.Instrs)-1].(*ssa.If)
+				if !ok || len(b.Succs) != 2 {
+					continue
+				}
+				s0skip := canSkip(b.Succs[0], map[*ssa.BasicBlock]bool{})
+				s1skip := canSkip(b.Succs[1], map[*ssa.BasicBlock]bool{})
+				s0upd := canUpdate(b.Succs[0])
+				s1upd := canUpdate(b.Succs[1])
+				if !((s0skip && s1upd) || (s1skip && s0upd)) || (s0upd && s1upd && !(s0skip != s1skip)) {
+					continue
+				}
+				// a decision that can leave a child out
+				n++
+				if !allowedSkipCondition(ifc.Cond, f) {
+					bad = append(bad, "a child is left out under the condition at "+p.Pos(ifc.Cond.Pos()))
+				}
+			}
+			if len(bad) > 0 {
+				sort.Strings(bad)
+				r.Bad(rule, key, fn, pos, inst, strings.Join(bad, "; ")+": the supervisor does not wait for that child — it terminates (and an application stop reports success) while the child is still running")
+			} else {
+				r.OK(rule, key, fn, pos, inst, fmt.Sprintf("%d skip decision(s) in the loop, each compares the child's pid with the empty pid / the terminated pid or its name with the terminated name", n))
+			}
+		})
+	}
+}
+
+// instrReachableWithin: target block reachable from b inside the loop without passing the header.
+func instrReachableWithin(b, target *ssa.BasicBlock, inLoop map[*ssa.BasicBlock]bool, hdr *ssa.BasicBlock) bool {
+	seen := map[*ssa.BasicBlock]bool{}
+	var w func(x *ssa.BasicBlock) bool
+	w = func(x *ssa.BasicBlock) bool {
+		if x == target {
+			return true
+		}
+		if x == hdr || !inLoop[x] || seen[x] {
+			return false
+		}
+		seen[x] = true
+		for _, s := range x.Succs {
+			if w(s) {
+				return true
+			}
+		}
+		return false
+	}
+	return w(b)
+}
+
+// allowedSkipCondition: pid of the element == zero PID / pid parameter, or name of the element == name parameter.
+func allowedSkipCondition(c ssa.Value, f *ssa.Function) bool {
+	b, ok := c.(*ssa.BinOp)
+	if !ok || (b.Op != token.EQL && b.Op != token.NEQ) {
+		return false
+	}
+	isElemField := func(v ssa.Value) bool {
+		_, path, okp := fieldPath(v)
+		if !okp || len(path) == 0 {
+			return false
+		}
+		last := path[len(path)-1]
+		return last == "pid" || last == "Name"
+	}
+	isZeroOrParam := func(v ssa.Value) bool {
+		v = resolveLocalCopy(v)
+		switch x := v.(type) {
+		case *ssa.Const:
+			return true
+		case *ssa.Parameter:
+			return true
+		case *ssa.UnOp:
+			if x.Op == token.MUL {
+				if al, ok := x.X.(*ssa.Alloc); ok {
+					// a local that is never assigned (var empty gen.PID) or holds a parameter
+					n := 0
+					var val ssa.Value
+					for _, rf := range *al.Referrers() {
+						if st, ok := rf.(*ssa.Store); ok && st.Addr == ssa.Value(al) {
+							n++
+							val = st.Val
+						}
+					}
+					if n == 0 {
+						return true
+					}
+					if n == 1 {
+						_, isPar := val.(*ssa.Parameter)
+						return isPar
+					}
+				}
+			}
+		}
+		return false
+	}
+	return (isElemField(b.X) && isZeroOrParam(b.Y)) || (isElemField(b.Y) && isZeroOrParam(b.X))
+}
